@@ -144,7 +144,14 @@ def binop(E, op, a, b, st, sink):
             if kind == 'memoryview':
                 sink.append(('raise', st, exc(TypeError, 'unsupported operand memoryview +')))
                 return
-            yield st, mk_bytes(z3.Concat(zbytes(a), zbytes(b)), kind)
+            za, zb = zbytes(a), zbytes(b)
+            if E.options.get('pacc_be') and z3.is_app(za) and za.decl().kind() == z3.Z3_OP_UNINTERPRETED and za.decl().name() == 'rep' \
+                    and z3.is_app(za.arg(0)) and za.arg(0).decl().kind() == z3.Z3_OP_SEQ_UNIT and z3.is_bv_value(za.arg(0).arg(0)) \
+                    and za.arg(0).arg(0).as_long() == 0:
+                # opt-in: zero padding on the left does not change the big-endian value (positional notation)
+                from . import models
+                st.fact(models.be_value(E, st, z3.Concat(za, zb)) == models.be_value(E, st, zb))
+            yield st, mk_bytes(z3.Concat(za, zb), kind)
             return
         if isinstance(op, ast.Mod):
             raise Unsupported('bytes formatting')
@@ -575,6 +582,11 @@ def byte_int(E, st, bv):
     defining facts 0 <= x <= 255 and Int2BV(x, 8) == bv (one name per term and proof) -- arithmetic over bytes then stays in
     linear integer arithmetic, which z3 decides far faster than through bv2int"""
     if not E.options.get('int_bytes'):
+        # exact, no solver: the byte made from x % 256 has the integer value x % 256 (z3 does not see through bv2int(int2bv(.)))
+        if z3.is_app(bv) and bv.decl().kind() == z3.Z3_OP_INT2BV and bv.size() == 8:
+            a = bv.arg(0)
+            if z3.is_app(a) and a.decl().kind() == z3.Z3_OP_MOD and z3.is_int_value(a.arg(1)) and a.arg(1).as_long() == 256:
+                return a
         return z3.BV2Int(bv)
     bv = z3.simplify(bv)
     if z3.is_bv_value(bv):
@@ -736,6 +748,16 @@ def subscript(E, base, idx, st, sink):
             else:
                 sink.append(('raise', st, exc(KeyError, idx)))
             return
+        if h.kind == 'pacc':
+            # prepend accumulator (count, first, rest): only t[0]
+            if not (isinstance(idx, int) and not isinstance(idx, bool) and idx == 0):
+                raise Unsupported('prepend-accumulator list: only [0] is supported')
+            empty, ok = E.split(st, zint(h.items[0]) <= 0)
+            if empty is not None:
+                sink.append(('raise', empty, exc(IndexError, 'list index out of range')))
+            if ok is not None:
+                yield ok, ok.heap[base.oid].items[1]
+            return
         if h.kind == 'acc':
             # accumulator abstraction (count, last, joined): only t[-1]
             if not (isinstance(idx, int) and not isinstance(idx, bool) and idx == -1):
@@ -823,8 +845,16 @@ def subscript(E, base, idx, st, sink):
                 j = z3.IntVal(idx)
             elif isinstance(idx, int):
                 j = n + idx
+            elif E.implied_arith(ok, i >= 0):
+                j = i                                   # a non-negative index needs no normalisation (simpler term, same value)
             else:
                 j = z3.If(i < 0, i + n, i)
+            if z3.is_app(zs) and zs.decl().kind() == z3.Z3_OP_SEQ_EXTRACT:
+                # extract(s0, a, l)[j] == s0[a + j] when the slice is in bounds and 0 <= j < l
+                s0, a, l = zs.arg(0), zs.arg(1), zs.arg(2)
+                if E.implied(ok, z3.And(a >= 0, l >= 0, a + l <= z3.Length(s0), j >= 0, j < l)):
+                    yield ok, mk_int(byte_int(E, ok, s0[z3.simplify(a + j)]))
+                    return
             yield ok, mk_int(byte_int(E, ok, zs[j]))
         return
     if base is None or is_intlike(base):
@@ -881,6 +911,18 @@ def store_subscript(E, base, idx, v, st, sink):
     from .interp import FuncV
     if isinstance(base, Ref):
         h = st.heap[base.oid]
+        if h.kind == 'pacc':
+            if not (isinstance(idx, int) and not isinstance(idx, bool) and idx == 0) or not is_byteslike(v):
+                raise Unsupported('prepend-accumulator list: only t[0] = <bytes> is supported')
+            empty, ok = E.split(st, zint(h.items[0]) <= 0)
+            if empty is not None:
+                sink.append(('raise', empty, exc(IndexError, 'list assignment index out of range')))
+            if ok is None:
+                return []
+            h = ok.heap[base.oid]
+            h.items = [h.items[0], v, h.items[2]]
+            ok.writes.append((base.oid, '<items>'))
+            return [ok]
         if h.kind == 'list':
             if isinstance(idx, slice):
                 if not all(_conc(x) for x in (idx.start, idx.stop, idx.step)):
